@@ -16,6 +16,13 @@ stream `classes`: for EVERY class: generated instances from the SCHEMA value spa
                   State.from_node(node, descriptor), Descriptor.from_node(node, parent_handle)) and compared with
                   the fresh read; members whose attribute / element is absent in the document must hold the
                   implied / default value whatever the instance held before.
+                  Round 4: a member absent in the XML must hold the value the SCHEMA documents for it (default= or
+                  "The implied value SHALL be ..." in the xsd:documentation, 221 members; independent of the class
+                  declaration; the translator emits the mismatches, Props/C05.v proves the list empty); the first
+                  instances of every class are also written under non-default NAMESPACE configurations
+                  (NamespaceHelper(default_ns=PM|MSG|EXT) with xsi:type on the root for containers; a default
+                  namespace in the ns map, other prefixes, a namespace subset for data types): xsi:type resolves
+                  to the class, value read back equal, second write identical, schema-valid.
 stream `props`  : single descriptors (update_xml_value / get_py_value_from_node) on small trees vs. the kind model
                   XmlStruct.Model.run_prop (vm_compute).
 stream `update` : the same cases, descriptor.update_from_node on an instance whose member is pre-set, vs.
@@ -50,7 +57,8 @@ def judge_classes(ctx, res, seed, per_class):
             failing_classes.add(key)
             member = f['member']
             if f['clause'] != 'not schema-valid':
-                member = f.get('descriptor') or member.split('.')[-1].split('[')[0].split(':')[-1]
+                last = member.split('.')[-1].split('[')[0].split(':')[-1]
+                member = last if 'schema documents' in f['clause'] else (f.get('descriptor') or last)
             ctx.fail(f'classes: {key}: {f["clause"]} ({f["member"]})',
                      {'stream': 'classes', 'clause': f['clause'], 'member': member},
                      {'stream': 'classes', 'case': {'class': key, 'seed': seed, 'per_class': per_class},
@@ -69,6 +77,8 @@ def run(ctx):
         ctx.cov.setdefault('generated', []).append('XmlStruct/Gen_Schema.v')
         ctx.cov['schema'] = {k: gen[k] for k in ('n_classes', 'n_props', 'n_descriptor_classes', 'n_mapped_to_schema')}
         ctx.cov['schema']['unconstructible_classes'] = [b[1] for b in gen['broken']]
+        ctx.cov['schema']['members_with_documented_implied_value'] = gen.get('n_schema_implied')
+        ctx.cov['schema']['implied_value_mismatches'] = gen.get('implied_mismatch')
     if not ctx.prove():
         ctx.broken('theorem', 'Props/C05.v', ctx.proof_error)
 
@@ -231,6 +241,9 @@ def run(ctx):
              'its content; classes additionally: every value written twice (outputs, earlier tree, value, source document '
              'compared), every document read with optional parts removed and into populated instances / through the '
              'from_node variants with a pre-set object, compared with the fresh read and with the implied/default values; '
+             'absent members are also compared with the value the XSD documents (default= / implied value sentence); the '
+             'first 3 instances per class are written under non-default namespace configurations (default_ns, other '
+             'prefixes, subset) with xsi:type and must resolve, read back equal, re-write identically and validate; '
              'distinct = distinct serialised instances that passed (sha1 of the bytes) / distinct descriptor cases / '
              'distinct operation traces',
         assumptions=['scalars are restricted to values whose text form is exact today (timestamps / durations multiples of '
@@ -240,6 +253,9 @@ def run(ctx):
                      'envelope classes (not in the anchors) are not run stand-alone',
                      'value equality = equality of canonical dumps; a str-valued Enum equals its string; None and an '
                      'empty ExtensionLocalValue / attribute list are the same value',
+                     'element.text = QName(ns, ..) with ns = the DEFAULT namespace of the tree crashes this lxml (SIGSEGV, pure lxml '
+                     'reproduction): QName-valued text members in the default namespace are skipped (counted) under '
+                     'the default_ns configurations',
                      'C05_class_roundtrip is about values in normal form (valid): e.g. an empty struct for an '
                      'only-if-non-empty member is not in normal form'],
         trusted_base=['translator harness/impl/gen_schema.py (introspection of the descriptor instances) and the XSD index '
